@@ -95,6 +95,8 @@ class Ctx:
                                                  ("DEADLOCK2", "Deadlock2", {"C05"}),
                                                  ("REFINE3", "Refine3", {"C10", "C11"}),
                                                  ("REFINE4", "Refine4", {"C20"}),
+                                                 ("DEADLOCK3", "Deadlock3", {"C05", "C20"}),
+                                                 ("ORACLE_RC11", "OracleRC11", {"C02", "C03", "C04", "C16"}),
                                                  ("REFINE5", "Refine5", {"C17"}))
                   if pid in users]
         table = json.load(open(os.path.join(lvlib.VERIF, "checks", "theorems.json")))
